@@ -162,7 +162,9 @@ class _StatePointDict(JSONAttrDict):
         try:
             os.remove(job._statepoint_filename + "~")
         except OSError as error:
-            if error.errno != errno.ENOENT:
+            # No backup to remove: the job is not initialized (ENOENT), or its
+            # id is taken by something that is not a directory (ENOTDIR).
+            if error.errno not in (errno.ENOENT, errno.ENOTDIR):
                 raise
 
         self.filename = job._statepoint_filename
